@@ -70,3 +70,9 @@ impl StreamDependency {
         self.dependency_id
     }
 }
+
+#[cfg(feature = "verif")]
+#[allow(missing_docs, dead_code, unused_imports)]
+pub(crate) mod verif_h {
+    include!(concat!(env!("H2_VERIF_DIR"), "/harness/frame/priority.rs"));
+}
